@@ -91,6 +91,7 @@ def run(chk):
               "requires: beta0 != 0, a0,a1 != 0, P_n has no zero between a0 and a1 (perturbative range) -- denominators of the derivative identity")
     chk.assume("order 4: the principal complex logarithms ln((a1-r)/(a0-r)) differentiate as 1/(a1-r) (no branch cut crossed between a0 and a1)")
     bvec = [T.ONE, b1, b2]
+    REQ = [a0 > 0, a1 > 0, beta0 > 0]
 
     # ---------------- exact integrals, orders 1-3 ----------------
     exact = [("j12", 1, 1, lambda A1, A0: ei.j12(A1, A0, beta0)),
@@ -102,11 +103,12 @@ def run(chk):
     for name, k, n, f in exact:
         fn = f"eko.kernels.evolution_integrals:{name}"
         chk.under_contract(fn)
-        j = f(a1, a0)
         rp = quad_replay(fn, name, k, n, "low")
-        chk.eq(f"C13.exact.{name}.derivative", T.diff(j, "a1") * (beta0 * a1**2 * P(n, a1, bvec)), a1**k, fn=fn,
-               goal=f"d {name}/d a1 * beta_{n}(a1) == a1^{k}", ranges=RANGES, replay=rp)
-        chk.eq(f"C13.exact.{name}.zero", f(a0, a0), 0, fn=fn, goal=f"{name}(a0,a0) == 0", ranges=RANGES, replay=rp)
+        for tag, pc, j in chk.run_paths(f"C13.exact.{name}", lambda: f(a1, a0), REQ, fn=fn, replay=rp):
+            chk.eq(f"{tag}.derivative", T.diff(j, "a1") * (beta0 * a1**2 * P(n, a1, bvec)), a1**k, fn=fn,
+                   goal=f"d {name}/d a1 * beta_{n}(a1) == a1^{k}", ranges=RANGES, replay=rp)
+        for tag, pc, j0 in chk.run_paths(f"C13.exact.{name}", lambda: f(a0, a0), REQ, fn=fn, replay=rp):
+            chk.eq(f"{tag}.zero", j0, 0, fn=fn, goal=f"{name}(a0,a0) == 0", ranges=RANGES, replay=rp)
 
     # ---------------- expanded integrals ----------------
     bl = [b1, b2, b3]
